@@ -261,6 +261,8 @@ struct WindowOp {
     maint_inside: bool,
     /// a get that returned a value
     hit: bool,
+    /// insert: the key's previous entry was possibly expired or hidden when the operation began
+    key_maybe_dead_before: bool,
     /// the key of the operation was physically in the map before the operation
     in_map_before: bool,
     /// queue lengths (reads, writes) and physically held keys after the operation
@@ -299,6 +301,7 @@ pub struct Exec<'a> {
     // C04
     maint_inside_op: bool,
     last_get_hit: bool,
+    key_maybe_dead_op: bool,
     /// sum of in-place growths since the previous quiescent point
     window_growth: u64,
     allowed_excess: u64,
@@ -370,6 +373,7 @@ impl<'a> Exec<'a> {
             q_est: HashMap::new(),
             maint_inside_op: false,
             last_get_hit: false,
+            key_maybe_dead_op: false,
             window_growth: 0,
             allowed_excess: 0,
             sync_growth: 0,
@@ -684,6 +688,10 @@ impl<'a> Exec<'a> {
             }
         }
         crate::sched_hooks::reset_counters();
+        self.key_maybe_dead_op = match &prim {
+            Prim::Insert { k, .. } => self.cur(*k).is_some() && !self.live_lo(*k),
+            _ => false,
+        };
         match prim.clone() {
             Prim::Insert { k, w } => {
                 is_m_op = true;
@@ -1180,6 +1188,7 @@ impl<'a> Exec<'a> {
                 matched,
                 maint_inside: self.maint_inside_op,
                 hit: matches!(prim, Prim::Get { .. }) && self.last_get_hit,
+                key_maybe_dead_before: self.key_maybe_dead_op,
                 in_map_before: key_of.map_or(false, |k| self.pre.has(k)),
                 rq_after: post.read_q,
                 wq_after: post.write_q,
@@ -1471,13 +1480,15 @@ impl<'a> Exec<'a> {
                 };
                 // An update of a resident key that arrives while the cache is over capacity
                 // (single-threaded cache: the excess is evicted at the start of the operation)
-                // may find its own key among the victims; the value is then admitted as a new
-                // key, with victims of its own. Both the key's old entry and the second set of
+                // may find its own key among the victims, and one whose previous entry has
+                // expired finds it purged; the value is then admitted as a new key, with
+                // victims of its own. Both the key's old entry and the second set of
                 // victims are legitimate: judge the step under that reading as well.
                 if let (true, Some((uk, uw))) = (over, upd) {
                     let w_old = self.q_prev.get(uk).map_or(0, |e| weight_of(self.cfg, e.w_val) as u64);
                     let prev_w_old = prev_w - uw + w_old;
-                    if prev_w_old > c && post.has(uk) {
+                    let maybe_dead = window.first().map_or(false, |w| w.key_maybe_dead_before);
+                    if (prev_w_old > c || maybe_dead) && post.has(uk) {
                         let (e2, wmax2) = (e_w + w_old, wmax.max(w_old));
                         if e2 < (prev_w_old - c) + uw + 2 * wmax2 {
                             over = false;
